@@ -223,8 +223,12 @@ def run_case(case) -> list[Failure]:
 
         for rq in case["requests"]:
             one_request(rq["m"], rq["d"])
+        k = 0
         while held:
-            dispose(held.pop(), "release")
+            # held responses are finished at the end of the history: alternately read to the end (the connection then
+            # goes back by itself, possibly into a pool that is full by now) and released unread
+            dispose(held.pop(), ("read", "release")[k % 2] if not case["preload"] else "release")
+            k += 1
         _inspect(fails, sig0, pool, net, N, case, owning_closes, "after-history", brief)
         # ---- the pool still works (the script is over: from here on the server answers 200)
         srv.pos = len(srv.script)
